@@ -15,17 +15,63 @@ type ScheduleDFS struct {
 	Expired  func() bool
 	// Terminal is called on the final state of every execution (after Check).
 	Terminal func(w World, hist []string) []Violation
+	// Settle, if set, is called when no action is enabled; afterwards Enabled is asked again, and only if it is
+	// still empty is the execution over (guards the terminal oracle against a quiescence misjudgement).
+	Settle func()
 	// Shard selection on the first deviation point index.
 	Shards, Shard int
 
-	expired  bool
-	rootAlts int
+	expired   bool
+	rootAlts  int
+	confirmed map[string]bool
 }
 
 type schedRun struct {
 	choices []int
 	fanout  []int
 	hist    []string
+	sigs    []string // violation signatures this execution produced
+}
+
+// confirmNew re-runs an execution that produced a not yet confirmed violation signature four more times
+// and drops the signature (recording a harness note) unless it shows every time.
+func (d *ScheduleDFS) confirmNew(prefix []int, r *schedRun) {
+	if d.confirmed == nil {
+		d.confirmed = map[string]bool{}
+	}
+	for _, sig := range r.sigs {
+		if _, done := d.confirmed[sig]; done {
+			continue
+		}
+		hits := 0
+		const runs = 4
+		saved := d.Stats.Violations
+		for i := 0; i < runs; i++ {
+			d.Stats.Violations = nil
+			rr, err := d.run(r.choices)
+			if err != nil {
+				continue
+			}
+			for _, s2 := range rr.sigs {
+				if s2 == sig {
+					hits++
+					break
+				}
+			}
+		}
+		d.Stats.Violations = saved
+		d.confirmed[sig] = hits == runs
+		if hits != runs {
+			d.Stats.HarnessErrs = append(d.Stats.HarnessErrs, fmt.Sprintf("%s: violation %q after %q reproduced only %d/%d times; treated as uncaptured nondeterminism", d.Scenario, sig, HistKey(r.hist), hits, runs))
+			kept := d.Stats.Violations[:0]
+			for _, v := range d.Stats.Violations {
+				if v.Signature != sig {
+					kept = append(kept, v)
+				}
+			}
+			d.Stats.Violations = kept
+		}
+	}
 }
 
 func (d *ScheduleDFS) run(prefix []int) (*schedRun, error) {
@@ -38,6 +84,12 @@ func (d *ScheduleDFS) run(prefix []int) (*schedRun, error) {
 	r := &schedRun{}
 	for step := 0; ; step++ {
 		acts := w.Enabled()
+		if len(acts) == 0 && d.Settle != nil {
+			d.Settle()
+			if acts = w.Enabled(); len(acts) > 0 {
+				d.Stats.Count("late_enabled_after_settle")
+			}
+		}
 		if len(acts) == 0 {
 			break
 		}
@@ -67,14 +119,20 @@ func (d *ScheduleDFS) run(prefix []int) (*schedRun, error) {
 		for _, v := range w.Check(r.hist) {
 			v.Scenario = d.Scenario
 			v.History = append([]string{}, r.hist...)
-			d.Stats.Violate(v)
+			if ok, done := d.confirmed[v.Signature]; !done || ok {
+				d.Stats.Violate(v)
+			}
+			r.sigs = append(r.sigs, v.Signature)
 		}
 	}
 	if d.Terminal != nil {
 		for _, v := range d.Terminal(w, r.hist) {
 			v.Scenario = d.Scenario
 			v.History = append([]string{}, r.hist...)
-			d.Stats.Violate(v)
+			if ok, done := d.confirmed[v.Signature]; !done || ok {
+				d.Stats.Violate(v)
+			}
+			r.sigs = append(r.sigs, v.Signature)
 		}
 	}
 	if len(r.hist) > d.Stats.MaxDepth {
@@ -151,6 +209,7 @@ func (d *ScheduleDFS) explore(prefix []int, cost int) {
 			return
 		}
 	}
+	d.confirmNew(prefix, r)
 	if cost > 0 {
 		d.Stats.NontrivialCase(d.Scenario + "|" + HistKey(r.hist))
 	}
